@@ -70,4 +70,14 @@ def obligations(tier):
                               unwind=110, timeout=2400, mem=8, tier="quick" if q else "thorough", family="aegis%s-soft" % an,
                               desc="AEGIS portable implementation over an abstract AES round: accept <=> tag delta == 0; zero-filled output and mlen 0 on rejection; verify-only mode; short input",
                               bounds="all key/nonce/message/ad/tag bytes; (mlen, adlen) enumerated around the rate (16 bytes for AEGIS-256, 32 for AEGIS-128L)"))
+    # verification entry points named by this property whose exactness obligations live in neighbouring registries:
+    # crypto_verify_16/32/64 (both builds), crypto_sign open / verify_detached, HMAC-SHA-512-256 verify, Poly1305 verify
+    import re as _re
+    from obligations import C14 as _c14, C06 as _c06, C04 as _c04
+    pick = {_c14: r"^verify-(sse2|generic)$", _c06: r"^(open|verify)-m17$", _c04: r"^(hmac512256-k32-m\d+|poly1305-glue-len(16|17|33)-a0-b0)$"}
+    for mod, rx in pick.items():
+        for o in mod.obligations(tier):
+            if _re.match(rx, o.name) and (tier == "thorough" or o.tier == "quick"):
+                o.family = "verify-exactness-" + o.family
+                obs.append(o)
     return obs
